@@ -133,6 +133,12 @@ def rand_compound(rng, depth, names=NAMES):
         c.append({'k': 'type', 'ns': BARE, 'name': cps(rng.choice(names + ['*']))})
     for _ in range(rng.choice([0, 1, 1, 2]) if c else rng.choice([1, 1, 2])):
         c.append(rand_simple(rng, depth, names))
+    if rng.random() < 0.12:
+        # the same kind twice in one compound: #x#y (never both), #x#x, .x.y, [t][t=x] - all of them must hold
+        k = rng.choice(['id', 'id', 'class'])
+        pool = ['x', 'y', 'xy']
+        a, b = rng.choice(pool), rng.choice(pool)
+        c = [x for x in c if x['k'] != k] + [{'k': k, 'v': cps(a)}, {'k': k, 'v': cps(b)}]
     return c
 
 
